@@ -30,6 +30,13 @@ under the failing key was produced by a StrategyFactory while the searcher was e
 the rule's parent nor one of its children (KNOWN finding: RecomputingDict replays the pack only on the classes of the
 key; decided by an observer on ``_expand_class_with_strategy``), "other" for anything else.
 
+Packs: those of the universe, "sibling", "longverif3" and three in which one pair of classes is joined both by a one-way
+and by a two-way single-child rule (inserting the two-way rule makes RuleDBBase.add withdraw the one-way entries of the
+pair, in either orientation, from the rule store): "swapboth" (OneWaySwap then SwapSymmetry in one expansion set),
+"swapboth-sym" (OneWaySwap as expansion strategy, SwapSymmetry as symmetry: the two-way rule arrives first for children,
+last for images) and "addstat-drop" (AddStat: class -> class tracking one more statistic, one-way; DropZeroStats brings
+the child back to the class by a two-way rule in the opposite orientation when that statistic vanishes).
+
 After the search: if a specification exists, the one extracted from the SHADOW (``get_specification_rules``) must
 count the start class like brute force (n <= 5).
 """
@@ -58,8 +65,12 @@ from comb_spec_searcher.strategies.rule import VerificationRule
 from harness.universe import PACKS as UNIVERSE_PACKS
 from harness.universe import (
     START_CLASSES,
+    AddStat,
     Av,
+    DropZeroStats,
     ExpansionStrategy,
+    OneWaySwap,
+    SwapSymmetry,
     LongPrefixVerified,
     RemoveFrontOfPrefix,
     StatAtomStrategy,
@@ -141,6 +152,20 @@ PACKS["sibling"] = lambda: StrategyPack(
 PACKS["longverif3"] = lambda: StrategyPack(
     initial_strats=[RemoveFrontOfPrefix()], inferral_strats=[], expansion_strats=[[ExpansionStrategy()]],
     ver_strats=[StatAtomStrategy(), LongPrefixVerified(k=3)], name="longverif3")
+
+
+# one pair of classes joined by a one-way AND a two-way single-child rule
+PACKS["swapboth"] = lambda: StrategyPack(
+    initial_strats=[RemoveFrontOfPrefix()], inferral_strats=[],
+    expansion_strats=[[OneWaySwap(workable=True), SwapSymmetry(workable=True), ExpansionStrategy()]],
+    ver_strats=[StatAtomStrategy()], name="swapboth")
+PACKS["swapboth-sym"] = lambda: StrategyPack(
+    initial_strats=[RemoveFrontOfPrefix()], inferral_strats=[],
+    expansion_strats=[[OneWaySwap(workable=True), ExpansionStrategy()]],
+    ver_strats=[StatAtomStrategy()], symmetries=[SwapSymmetry()], name="swapboth-sym")
+PACKS["addstat-drop"] = lambda: StrategyPack(
+    initial_strats=[AddStat(stat="na"), RemoveFrontOfPrefix()], inferral_strats=[DropZeroStats()],
+    expansion_strats=[[ExpansionStrategy()]], ver_strats=[StatAtomStrategy()], name="addstat-drop")
 
 
 # --------------------------------------------------------------------------------------------------------------
@@ -568,7 +593,9 @@ def run(tier, seed):
     ]
     return {
         "bound": (f"{len(cases)} real searches with a RuleDB whose every add is forwarded to a RuleDBForgetStrategy "
-                  f"linked to the same searcher: {len(PACKS)} packs x {nstarts} start classes (alphabets a, b, ab; "
+                  f"linked to the same searcher: {len(PACKS)} packs (the universe's, sibling, longverif3, and swapboth / "
+                  f"swapboth-sym / addstat-drop, in which one pair of classes is joined by a one-way and by a two-way "
+                  f"single-child rule) x {nstarts} start classes (alphabets a, b, ab; "
                   "<= 2 patterns of length <= 3, a few with 3; prefix length <= 2; 0-2 statistics) x 2 schedules "
                   "(full: has_specification compared after every insertion, specification looked for after every "
                   "work packet; light: compared when the search asks, queue drained first) x expand_verified for "
